@@ -227,7 +227,7 @@ func compareHTMLTokens(want, got []byte, weak bool) (bool, string) {
 
 func (c06) Check(ctx *core.Ctx, c *core.Case) {
 	switch c.Gen {
-	case "model":
+	case "model", "directed":
 		parts := bytes.SplitN(c.Input, []byte("\x00EXPECT\x00"), 2)
 		if len(parts) != 2 {
 			ctx.Skip("not_a_model_case")
